@@ -66,12 +66,17 @@ def noConv : Conv := { rc := 99999, out := none }
 
 /-- history script: ops separated by `;`, conversion records per `e` op separated by `|` -/
 def runHistory (be : Backend) (b : Build) (script : String) (convGroups : List (List Conv)) : String := Id.run do
+  -- two independent objects: an op prefixed with `2` addresses the second one
   let mut st : State := {}
+  let mut st2 : State := {}
   let mut outs : Array String := #[]
   let mut groups := convGroups
   let mut dead := false
-  for op in script.splitOn ";" do
-    if dead then
+  let mut dead2 := false
+  for op0 in script.splitOn ";" do
+    let two := op0.get 0 == '2'
+    let op := if two then (op0.drop 1).toString else op0
+    if (if two then dead2 else dead) then
       outs := outs.push "-"
       continue
     let c := op.get 0
@@ -95,12 +100,12 @@ def runHistory (be : Backend) (b : Build) (script : String) (convGroups : List (
     match mop with
     | none => outs := outs.push "?"
     | some o =>
-      match step be b st o with
+      match step be b (if two then st2 else st) o with
       | .error f =>
         outs := outs.push (showFault f)
-        dead := true
+        if two then dead2 := true else dead := true
       | .ok (s, out) =>
-        st := s
+        if two then st2 := s else st := s
         let txt := match out with
           | .unit => String.singleton c
           | .rc v => "s" ++ showInt v
@@ -108,7 +113,8 @@ def runHistory (be : Backend) (b : Build) (script : String) (convGroups : List (
           | .verdict ret ec m r => "e" ++ showInt ret ++ " " ++ toString ec ++ " " ++ showMsg (fun rc => "#" ++ showInt rc) m ++ " " ++ showResult b r
         outs := outs.push txt
   if be == .idnkit then
-    outs := outs.push ("R" ++ toString st.resconfCreated ++ "," ++ toString st.resconfDestroyed ++ "," ++ toString st.resconfLive ++ ",0")
+    outs := outs.push ("R" ++ toString (st.resconfCreated + st2.resconfCreated) ++ "," ++ toString (st.resconfDestroyed + st2.resconfDestroyed) ++ ","
+      ++ toString (st.resconfLive + st2.resconfLive) ++ ",0")
   return ";".intercalate outs.toList
 
 def splitGroups (toks : List String) : List (List String) :=
